@@ -691,6 +691,14 @@ fn c03_tracked(rng: &mut Rng, acc: &mut Acc) {
                 let nq = rng.below(5);
                 let qmax = *rng.pick(&[1.0, 1.0, 0.5, 0.2]);
                 let mut qs: Vec<N64> = (0..nq).map(|_| n64(rng.unit() * qmax)).collect();
+                if nq >= 2 && rng.chance(0.2) {
+                    // only the two extreme ranks of every lane
+                    for q in qs.iter_mut() {
+                        *q = n64(if rng.chance(0.5) { 0.0 } else { 1.0 });
+                    }
+                    qs[0] = n64(0.0);
+                    qs[nq - 1] = n64(1.0);
+                }
                 if op == 1 && nq > 0 {
                     // an erroring call must not modify anything
                     qs[nq - 1] = n64(*rng.pick(&[-0.5, 1.5, -1e-9, 1.0 + 1e-9]));
@@ -767,8 +775,10 @@ fn c03_tracked(rng: &mut Rng, acc: &mut Acc) {
                         }
                         5 => {
                             opname = "get_many_from_sorted_mut";
-                            let m = rng.below(6);
-                            let req: Array1<usize> = (0..m).map(|_| rng.below(n)).collect();
+                            // request lists of length 0..n+2, with repeats; a fifth touch only the extreme ranks
+                            let m = rng.below(n + 3);
+                            let extremes = rng.chance(0.2);
+                            let req: Array1<usize> = (0..m).map(|_| if extremes { if rng.chance(0.5) { 0 } else { n - 1 } } else { rng.below(n) }).collect();
                             catch(|| {
                                 l1.get_many_from_sorted_mut(&req);
                             })
@@ -1124,15 +1134,23 @@ where
         let n = c.shape[c.axis];
         let nm1 = (n.max(2) - 1) as f64;
         let k = rng.below(n) as f64;
-        let q = match rng.below(7) {
+        // requests on the rank grid of one lane's REMAINING count m (whole and half ranks of the filtered data),
+        // besides the grid of the full lane length, the extremes, the median and arbitrary reals
+        let m = if lanes.is_empty() { 0 } else { lanes[rng.below(lanes.len())].iter().filter(|&&i| !c.data[i].raw_missing()).count() };
+        let mm1 = (m.max(2) - 1) as f64;
+        let j = rng.below(m.max(1)) as f64;
+        let q = match rng.below(10) {
             0 => 0.0,
             1 => 1.0,
             2 => k / nm1,
             3 => (k + 0.5) / nm1,
             4 => 0.5,
+            5 | 6 => j / mm1,
+            7 => (j + 0.5) / mm1,
             _ => rng.unit(),
         }
         .clamp(0.0, 1.0);
+        acc.count(if m >= 2 && (q * mm1).fract() == 0.0 { "q_whole_rank_of_filtered_lane" } else { "q_other" });
         let sts: &[St] = &[St::Lower, St::Higher, St::Nearest, St::Midpoint, St::Linear];
         let st = *rng.pick(sts);
         let mut e2 = Embedded::new(&c.shape, &c.data, c.layout.clone());
